@@ -1,8 +1,136 @@
-(* C02 — theorems only (placeholder until the proof files land). *)
+(* C02 — balance assertions are enforced exactly and in file order.  Theorems only.
+   Model: Model/Book.v (process_posting, assert_balance, add_transaction, process);
+   vocabulary: Model/BookSpecB.v; proofs: Proofs/BookB_Inv.v, Proofs/BookB_Assert.v;
+   non-vacuity: Proofs/BookB_Examples.v. *)
 From Coq Require Import List NArith ZArith Bool QArith Qcanon.
-From Okv Require Import Base.Maps Base.Dec Model.Amount Model.Book.
+From Okv Require Import Base.Maps Base.Dec Model.Amount Model.Book Model.Query Model.BookSpecB
+     Proofs.BookB_Maps Proofs.BookB_Inv Proofs.BookB_Assert Proofs.BookB_Examples.
 Import ListNotations.
+Open Scope Qc_scope.
 
-Theorem C02_nop_entry : forall s, process_entry s ENop = Ok s.
-Proof. reflexivity. Qed.
-Print Assumptions C02_nop_entry.
+(* 1. The check itself.  A posting `acct  amt = X` is accepted only if, right after adding amt
+   to the account, the balance `current` satisfies X: the commodity of X holds exactly X's
+   value; for a bare `= 0` the account holds nothing at all.  Otherwise (when amount, cost and
+   lot evaluate) the run fails with BalanceAssertionFailure pointing at this posting, carrying
+   `current` and diff = X - current (resp. -current). *)
+Theorem C02_assert_checked : forall b date i p sa bc expected,
+  p_amount p = Some sa -> p_balance p = Some bc -> eval_pa bc = Ok expected ->
+  (forall r, process_posting b date i p = Ok r ->
+     exists amt, eval_pa sa = Ok amt /\
+       let current := snd (bal_add_pa b (p_account p) amt) in
+       fst (fst r) = fst (bal_add_pa b (p_account p) amt)
+       /\ assert_balance current expected = []
+       /\ holds expected (a_get current)
+       /\ (expected = PZero -> current = []))
+  /\ (forall amt cl, eval_pa sa = Ok amt -> eval_cost_lot amt p = Ok cl ->
+       let current := snd (bal_add_pa b (p_account p) amt) in
+       ~ holds expected (a_get current) ->
+       process_posting b date i p = Err (BalanceAssertionFailure i current (assert_diff expected current))).
+Proof. exact assert_checked. Qed.
+Print Assumptions C02_assert_checked.
+
+(* 2. Balances never carry a zero-valued entry (so `= 0` sees an empty account exactly when
+   everything cancelled), and keys are distinct, in every reachable state. *)
+Theorem C02_balance_no_zero_entries : forall s,
+  reachable s ->
+  NoDup (keys (s_bal s))
+  /\ forall a x, In (a, x) (s_bal s) -> NoDup (keys x) /\ forall c v, In (c, v) x -> v <> 0.
+Proof. exact balance_no_zero_entries. Qed.
+Print Assumptions C02_balance_no_zero_entries.
+
+(* 3. The live balance is the sum of the stored postings, for every reachable state. *)
+Theorem C02_running_balance : forall s,
+  reachable s -> forall a c, a_get (bal_get (s_bal s) a) c = sum_posts (all_postings s) a c.
+Proof. exact running_balance. Qed.
+Print Assumptions C02_running_balance.
+
+(* 3a. In a transaction: when the assertion on posting i is checked, the live balance of its
+   account is the sum over all earlier transactions, plus what the loop has stored for postings
+   0..i-1 of this one (an omitted-amount posting holds [] there: loop invariant li_match), plus
+   this posting's amount. *)
+Theorem C02_live_balance_at_assertion : forall s t i st p sa amt,
+  reachable s -> loop_upto s t i = Ok st -> nth_error (t_posts t) i = Some p ->
+  p_amount p = Some sa -> eval_pa sa = Ok amt ->
+  let current := snd (bal_add_pa (l_bal st) (p_account p) amt) in
+  forall c, a_get current c =
+            sum_posts (all_postings s) (p_account p) c
+            + sum_posts (rev (l_posts st)) (p_account p) c + pa_get amt c.
+Proof. intros s t i st p sa amt R. apply live_balance_at_assertion. now apply reachable_inv. Qed.
+Print Assumptions C02_live_balance_at_assertion.
+
+(* 3b. Read off the stored transaction: every assertion of an accepted transaction was true of
+   the file-order running balance taken WITHOUT this transaction's omitted-amount postings. *)
+Theorem C02_assertion_live : forall s t s' i p sa bc expected,
+  reachable s -> add_transaction s t = Ok s' ->
+  nth_error (t_posts t) i = Some p -> p_amount p = Some sa -> p_balance p = Some bc ->
+  eval_pa bc = Ok expected ->
+  exists ot, s_txns s' = s_txns s ++ [ot]
+    /\ holds expected (running_live (all_postings s) (t_posts t) (o_posts ot) i (p_account p)).
+Proof.
+  intros s t s' i p sa bc expected R H Hn Hsa Hbc He.
+  destruct (assertion_live _ _ _ _ _ _ _ _ (reachable_inv _ R) H Hn Hsa Hbc He) as (ot & H1 & _ & H2).
+  exists ot. split; assumption.
+Qed.
+Print Assumptions C02_assertion_live.
+
+(* 3c. The property, outside the known class C02-K1 (no omitted-amount posting on the same
+   account earlier in the same transaction): in an accepted ledger every written `= X` was
+   true after applying that posting and everything before it in file order. *)
+Theorem C02_assertions_hold_outside_K1 : forall es es1 t es2 L n i p sa bc expected,
+  process es = (Ok L, n) -> es = es1 ++ ETxn t :: es2 ->
+  nth_error (t_posts t) i = Some p -> p_amount p = Some sa -> p_balance p = Some bc ->
+  eval_pa bc = Ok expected -> known_class t i = false ->
+  exists pre ot post,
+    s_txns L = pre ++ ot :: post /\ length pre = count_txns es1
+    /\ holds expected (running (flat_map o_posts pre) (o_posts ot) i (p_account p)).
+Proof. exact assertions_hold_outside_K1. Qed.
+Print Assumptions C02_assertions_hold_outside_K1.
+
+(* Inside the class the statement is false of the model (and of the implementation):
+   `A ; A 5 USD = 5 USD ; B 3 USD` is accepted although A stands at -3 USD. *)
+Theorem C02_K1_refuted :
+  exists es es1 t es2 L n i p sa bc expected,
+    process es = (Ok L, n) /\ es = es1 ++ ETxn t :: es2
+    /\ nth_error (t_posts t) i = Some p /\ p_amount p = Some sa /\ p_balance p = Some bc
+    /\ eval_pa bc = Ok expected /\ known_class t i = true
+    /\ ~ exists pre ot post,
+           s_txns L = pre ++ ot :: post /\ length pre = count_txns es1
+           /\ holds expected (running (flat_map o_posts pre) (o_posts ot) i (p_account p)).
+Proof. exact K1_refuted. Qed.
+Print Assumptions C02_K1_refuted.
+
+(* 4. A rejected ledger: BalanceAssertionFailure i at entry k means entry k is a transaction,
+   all earlier entries were accepted, its posting i carries an assertion that is false of the
+   live balance `computed` (characterised as in 3a), and diff = X - computed. *)
+Theorem C02_first_failure_reported : forall es i computed diff k,
+  process es = (Err (BalanceAssertionFailure i computed diff), k) ->
+  exists es1 t es2 s,
+    es = es1 ++ ETxn t :: es2 /\ length es1 = k /\ process es1 = (Ok s, k)
+    /\ exists st p sa bc amt expected,
+         loop_upto s t i = Ok st /\ nth_error (t_posts t) i = Some p
+         /\ p_amount p = Some sa /\ p_balance p = Some bc
+         /\ eval_pa sa = Ok amt /\ eval_pa bc = Ok expected
+         /\ computed = snd (bal_add_pa (l_bal st) (p_account p) amt)
+         /\ diff = assert_diff expected computed
+         /\ ~ holds expected (a_get computed)
+         /\ forall c, a_get computed c =
+                      sum_posts (all_postings s) (p_account p) c
+                      + sum_posts (rev (l_posts st)) (p_account p) c + pa_get amt c.
+Proof. exact first_failure_reported. Qed.
+Print Assumptions C02_first_failure_reported.
+
+(* 4a. Conversely: if the entries before a transaction are accepted, its postings before i are
+   processed without error, and the assertion on posting i (whose amount, cost and lot
+   evaluate) is false of the live balance, then the ledger is rejected at that entry with
+   BalanceAssertionFailure pointing at posting i and carrying that balance. *)
+Theorem C02_false_rejected : forall es1 t es2 s i st p sa bc amt cl expected,
+  process es1 = (Ok s, length es1) ->
+  loop_upto s t i = Ok st -> nth_error (t_posts t) i = Some p ->
+  p_amount p = Some sa -> p_balance p = Some bc ->
+  eval_pa sa = Ok amt -> eval_cost_lot amt p = Ok cl -> eval_pa bc = Ok expected ->
+  let computed := snd (bal_add_pa (l_bal st) (p_account p) amt) in
+  ~ holds expected (a_get computed) ->
+  process (es1 ++ ETxn t :: es2)
+  = (Err (BalanceAssertionFailure i computed (assert_diff expected computed)), length es1).
+Proof. exact false_rejected. Qed.
+Print Assumptions C02_false_rejected.
